@@ -28,6 +28,8 @@ CORPUS_DECLS = ['*IDN?', '*RST', 'A:B', 'A:B?', 'A:C', 'a:b', '[A]:B', 'A:[B]', 
                 'MEASure:VOLTage:[DC]?', 'MEAS:VOLT?', 'MEASure:VOLTage:AC?', '[SENSe]:VOLTage:RANGe', 'VOLT:RANG', 'SENS:VOLT:RANGE', 'VOLTage:RANGe?',
                 'TRIGger:[SEQuence]:SOURce', 'TRIG:SOUR', 'TRIG:SEQ:SOUR?', 'TRIGger:SOURce?']
 # mnemonics with characters that are neither upper nor lower case (numeric suffixes, '_', '*'), checked as given pairs and in the spelling differential
+# white space around mnemonics inside a declaration is not part of the header (every mnemonic is trimmed)
+BLANK_DECLS = ['A: B', 'A :C', ' A:B', 'A : B?', '[A] :B', 'SYSTem: VALue?', 'SYSTem :VERSion?']
 SUFFIX_DECLS = ['OUTPut1:STATe', 'OUTPut2:STATe', 'OUTP1:STAT', 'OUTP:STAT', 'CHANnel1:VALue?', 'CHan1:VALue?', 'CHAN:VAL?', 'CH_a:X', 'CH_:X', 'CH:X', '*RST', 'RST', '*IDN?', 'IDN?',
                 'MEAS2:VOLTage3?', 'MEAS:VOLT3?', 'MEAS2:VOLT?']
 
@@ -80,7 +82,7 @@ def check(run):
     # ---- spelling differential: Command::try_from + paths executed from MIR vs the reference expansion, on concrete declarations.
     # A difference is turned into a witness pair (the declaration and the differing spelling declared literally) for the native stage.
     viol = {}
-    spell_decls = [d for d in CORPUS_DECLS + SUFFIX_DECLS if ref_self_ok(d)] + ['Gh1_:I2', '[OPT]:[INNer]:LEAF?', 'TeST:A']
+    spell_decls = [d for d in CORPUS_DECLS + SUFFIX_DECLS + BLANK_DECLS if ref_self_ok(d)] + ['Gh1_:I2', '[OPT]:[INNer]:LEAF?', 'TeST:A']
     try:
         got_sp = M.spelling_sets(ex, spell_decls)
     except Exception as e:
@@ -99,6 +101,7 @@ def check(run):
     rnd = random.Random(run.seed)
     sets = []
     pairs = list(itertools.permutations(CORPUS_DECLS + SUFFIX_DECLS, 2))
+    pairs += [(a, b) for a in BLANK_DECLS for b in CORPUS_DECLS if ref_collides(a, b)] + [(b, a) for a in BLANK_DECLS for b in CORPUS_DECLS[:12]]
     rnd.shuffle(pairs)
     if pl['corpus_pairs']:
         # always keep the colliding pairs (they are the rarer class)
